@@ -129,6 +129,9 @@ type Func struct {
 	ErrAt    int      `json:"err_at,omitempty"`    // >0: the error result is declared before top-level result ErrAt (in the middle)
 	ErrExtra int      `json:"err_extra,omitempty"` // a second error result that is always nil: 1 declared last, 2 declared first
 	Reenter  bool     `json:"reenter,omitempty"`   // constructor / decorator body calls Invoke for its own first result (re-entrant user code)
+	ReKey    *Key     `json:"re_key,omitempty"`    // with Reenter: the nested request is for this key instead ...
+	ReScope  int      `json:"re_scope,omitempty"`  // ... issued on this scope
+	ReCB     bool     `json:"re_cb,omitempty"`     // with Reenter and Callback: the nested request is issued from the callback, not from the body
 	Variadic bool     `json:"variadic,omitempty"`
 
 	// Provide options.
@@ -302,6 +305,12 @@ func (f *Func) String() string {
 	b.WriteString(")")
 	if f.Reenter {
 		b.WriteString(" Reenter")
+		if f.ReKey != nil {
+			fmt.Fprintf(&b, "(%s from s%d)", *f.ReKey, f.ReScope)
+		}
+		if f.ReCB {
+			b.WriteString("(in callback)")
+		}
 	}
 	if f.OptName != "" {
 		fmt.Fprintf(&b, " Name(%s)", f.OptName)
